@@ -329,17 +329,36 @@ class PipelinePostprocessQuery(Contract):
         items, chain = [], []
         rule = SObj("Rule", {})
         q0 = SObj("Query", {}, ghost={"n": 0})
+        events = []          # order in which conditions are evaluated and transformations run (an item's conditions may depend on what ran before it)
         for i, applied in enumerate(case):
+            def cond(I2, a, k, i=i, applied=applied):
+                events.append(("cond", i))
+                return applied
+
+            def tr(I2, a, k, i=i):
+                events.append(("run", i))
+                return SObj("Query", {}, ghost={"n": i + 1, "from": a[1]})
+
             def ap(I2, a, k, i=i, applied=applied):
                 chain.append((i, a[0], a[1]))
+                events.append(("cond", i))
+                if applied:
+                    events.append(("run", i))
                 return (SObj("Query", {}, ghost={"n": i + 1, "from": a[1]}), applied)
-            items.append(SObj("Item", {"apply": NativeFn("apply", ap), "identifier": f"id{i}" if i != 1 else None}))
+            items.append(SObj("Item", {"apply": NativeFn("apply", ap), "identifier": f"id{i}" if i != 1 else None, "match_rule_conditions": NativeFn("match_rule_conditions", cond),
+                                       "transformation": SObj("T", {"apply": NativeFn("apply", tr)})}))
         ids = {"earlier"}
         me = SObj(idx.lookup(f"{PPm}:ProcessingPipeline"), {"postprocessing_items": items, "applied_ids": ids}, lazy=True)
-        return {"self": me, "args": [rule, q0], "chain": chain, "rule": rule, "q0": q0, "ids": ids, "case": case}
+        return {"self": me, "args": [rule, q0], "chain": chain, "rule": rule, "q0": q0, "ids": ids, "case": case, "events": events}
 
     def post(self, I, inp, r):
         c, chain, case = I.ctx, inp["chain"], inp["case"]
+        want_ev = []
+        for i, ap_ in enumerate(case):
+            want_ev.append(("cond", i))
+            if ap_:
+                want_ev.append(("run", i))
+        c.require(inp["events"] == want_ev, "the conditions of an item are evaluated when its turn comes - after the items before it have run (they may ask whether an earlier item was applied)")
         c.require([x[0] for x in chain] == list(range(len(case))) and all(x[1] is inp["rule"] for x in chain), "every item is applied once, in order, for this rule")
         prev = inp["q0"]
         for x in chain:
